@@ -608,7 +608,10 @@ func runC09(c *Ctx) {
 			cls += "/issuer=exotic-subject"
 			w["issuer_certificate"] = mon.Hex(parent.Raw)
 		}
-		if pi := mon.Guard(func() { der, err = gx509.CreateCertificate(t, parent, &subjPub.PublicKey, j.s.key); keep("x509.CreateCertificate", der) }); pi != nil {
+		if pi := mon.Guard(func() {
+			der, err = gx509.CreateCertificate(t, parent, &subjPub.PublicKey, j.s.key)
+			keep("x509.CreateCertificate", der)
+		}); pi != nil {
 			rep.Violation("C09/CreateCertificate/panic/"+pi.Func, pi.Value, w)
 			rep.Eval(cls)
 			return
